@@ -86,7 +86,9 @@ ASSUMPTIONS = [
     "8*cv/sqrt(2048) < 5e-2 (cv = relative spread of the acceptance function "
     "under the base, computed by quadrature)",
     "samples whose latent image lies within 1e-3 of the boundary of a "
-    "uniform base distribution are not compared (discontinuous density)",
+    "uniform base distribution are not compared (discontinuous density); "
+    "the uniform base is not combined with volume-preserving couplings (the "
+    "training loss is then constant and torch's backward() raises)",
     "FlowProposal: r, alt_dist and the latent prior are prepared exactly as "
     "populate() prepares them; the population loop itself belongs to C09; "
     "returned points within 1e-6 (relative) of a face of the prior box or "
@@ -1295,7 +1297,11 @@ def flow_configs(draw, ftypes=("realnvp", "maf", "nsf"), dims=None,
             pt = draw(st.sampled_from([None, None, "logit", "batch_norm"]))
             if pt is not None:
                 cfg["pre_transform"] = pt
-        draw(_dist(cfg, dists))
+        name = draw(_dist(cfg, dists))
+        if name == "uniform":
+            # additive couplings have a constant log-determinant and the
+            # uniform base has no gradient: nothing to train (torch raises)
+            cfg.pop("use_volume_preserving", None)
     elif ftype == "maf":
         if bn_between:
             cfg["batch_norm_between_layers"] = True
